@@ -96,6 +96,21 @@ def defs_sorted(xml):
         d[:] = sorted(d, key=lambda e: e.get('id', ''))
     return etree.tostring(root).decode()
 
+def defs_ids(xml):
+    root = etree.fromstring(xml.encode())
+    return [e.get('id') for d in root.iter('{http://www.w3.org/2000/svg}defs') for e in d]
+
+def front_insertion_order(ids_prev):
+    """what the recorded defect predicts for the next pass over a pico document: the gradients are re-inserted
+    in reverse document order, each before the first entry with a greater id, or at the FRONT when there is none"""
+    out = []
+    for i in reversed(ids_prev):
+        at = 0
+        for k, j in enumerate(out):
+            if i < j: at = k; break
+        out.insert(at, i)
+    return out
+
 def judge(doc, nd):
     try: out1 = SVG.fromstring(doc).topicosvg(ndigits=nd).tostring()
     except Exception: return None
@@ -110,7 +125,8 @@ def judge(doc, nd):
         except Exception as e:
             return (f'pass {k} accepts the output of pass {k - 1}', 'normal return', {'raised': f'{type(e).__name__}: {str(e)[:300]}', f'pass{k - 1}': prev[:3000]})
         if nxt != prev:
-            return (f'pass {k} is byte-identical to pass {k - 1}', {'pass': prev[:3000]}, {'pass': nxt[:3000], 'only_defs_order': defs_sorted(nxt) == defs_sorted(prev)})
+            return (f'pass {k} is byte-identical to pass {k - 1}', {'pass': prev[:3000], 'defs_ids': defs_ids(prev)},
+                    {'pass': nxt[:3000], 'defs_ids': defs_ids(nxt), 'only_defs_order': defs_sorted(nxt) == defs_sorted(prev)})
         prev = nxt
     return None
 
@@ -129,7 +145,7 @@ def search(ctx, broken, disagreements):
         if v:
             item = {'law': v[0], 'input': {'doc': doc, 'ndigits': nd}, 'expected_by_spec': jsonable(v[1]), 'observed': jsonable(v[2])}
             # keep at most one instance of the defs-order finding so that other violations are not crowded out
-            if isinstance(v[2], dict) and v[2].get('only_defs_order'):
+            if isinstance(v[2], dict) and v[2].get('only_defs_order') and v[2].get('defs_ids') == front_insertion_order(v[1].get('defs_ids') or []):
                 known_hits += 1
                 if known_hits > 1: continue
             found.append(item)
@@ -139,7 +155,10 @@ def search(ctx, broken, disagreements):
 def matches_known(v, entry):
     sig = entry.get('signature', {})
     if sig.get('pattern') == 'defs_order_only':
-        return bool(isinstance(v.get('observed'), dict) and v['observed'].get('only_defs_order'))
+        # only the recorded mechanism: every other byte identical AND the new order is exactly what front insertion predicts
+        o, e = v.get('observed'), v.get('expected_by_spec')
+        return bool(isinstance(o, dict) and isinstance(e, dict) and o.get('only_defs_order')
+                    and o.get('defs_ids') == front_insertion_order(e.get('defs_ids') or []))
     return False
 
 def replay(ctx, w):
